@@ -41,6 +41,11 @@ def drawsHash64 (r : Rng64) (k : Nat) : UInt64 × UInt64 × Rng64 := Id.run do
     r := r'
   return (h, last, r)
 
+/-- `k` successive raw words -/
+def wordsN {σ α : Type} (next : σ → α × σ) (s : σ) : Nat → List α → List α × σ
+  | 0, acc => (acc.reverse, s)
+  | k+1, acc => let p := next s; wordsN next p.2 k (p.1 :: acc)
+
 def fuel : Nat := 1000000
 
 def parseBitsList (s : String) : List Float :=
@@ -133,6 +138,16 @@ def step (s : S) (line : String) : S × String :=
     let k := (argNat? ws "k").getD 1
     let (h, last, r) := drawsHash32 s.r k
     ({ s with r := r }, s!"ok h={hex64 h} last={last}")
+  | "w32" :: _ =>
+    let k := (argNat? ws "k").getD 1
+    if k > 2000 then (s, "bad-op") else
+    let (xs, r) := wordsN Rng.next s.r k []
+    ({ s with r := r }, "ok " ++ ",".intercalate (xs.map fun x => toString x.toNat))
+  | "w64" :: _ =>
+    let k := (argNat? ws "k").getD 1
+    if k > 2000 then (s, "bad-op") else
+    let (xs, r) := wordsN Rng64.next s.r64 k []
+    ({ s with r64 := r }, "ok " ++ ",".intercalate (xs.map fun x => toString x.toNat))
   | "roll" :: _ =>
     match argNat? ws "n" with
     | some n => if n = 0 then (s, "bad-op") else
